@@ -2,6 +2,7 @@ package families
 
 import (
 	"fmt"
+	"os"
 	"sort"
 	"strings"
 
@@ -98,6 +99,9 @@ func C15() *clustermc.Family {
 		MacroEnv: true,
 		StateOracle: func(scn *clustermc.Scenario, path []clustermc.Step, cpath []string, w *world.World) []engine.Violation {
 			last := len(cpath) - 1
+			if os.Getenv("VERIF_C15_TRACE") != "" && last == 4 { // debugging aid: dump a replay of the first 4 macro steps
+				return []engine.Violation{{Property: "C15", Key: "C15/trace-dump " + scn.Name, Message: "trace dump requested"}}
+			}
 			for i := 0; i < last; i++ {
 				if cpath[i] != cpath[last] {
 					continue
